@@ -58,6 +58,9 @@ CanAppend(b, t) ==
   IF b = <<>> THEN t.k # "paste"
   ELSE IF Last(b).k = "def" THEN t.k = "cont"            \* a `define inside a body ends its line
   ELSE IF Last(b).k \in {"str", "bqs"} /\ t.k \in {"use", "cond"} THEN FALSE
+  \* (a conditional anywhere behind a string literal of the same body: only a continuation, another directive or an
+  \*  empty actual may stand between them, which is D2 territory again)
+  ELSE IF t.k = "cond" /\ \E i \in 1..Len(b) : b[i].k \in {"str", "bqs"} THEN FALSE
   ELSE IF t.k = "paste" THEN Pastable(Last(b))
   ELSE IF Last(b).k = "paste" THEN Pastable(t) ELSE TRUE
 Complete(b) == IF b = <<>> THEN TRUE ELSE Last(b).k # "paste"
